@@ -89,6 +89,12 @@ Theorem divider_arithmetic_is_what_the_source_says :
   (divider_translation_ok = true :> bool) /\
   (forall (T : Type) (N : Num T) (e1 e2 p n p1 p2 p3 : vec3 T),
      edge_plane_gen N e1 e2 p n = edge_plane N e1 e2 p n /\
-     face_side_gen N p1 p2 p3 p n = face_side N p1 p2 p3 p n).
-Proof. split; [reflexivity|]. intros. split; reflexivity. Qed.
+     face_side_gen N p1 p2 p3 p n = face_side N p1 p2 p3 p n) /\
+  (* the rotation that brings the division plane to z = 0: quaternion::normalize and to_matrix, mat33::dot; mat33::transpose,
+     mat33::identity and the forward / backward map of an interface point are checked textually by the translator *)
+  (forall (T : Type) (N : Num T) (qw qx qy qz : T) (M : @mat T) (v n : vec3 T),
+     quat_matrix_gen N qw qx qy qz = quat_matrix N qw qx qy qz /\
+     mdot_gen N M v = mdot N M v /\
+     rot_to_z_gen N n = rot_to_z N n).
+Proof. split; [reflexivity|]. split; intros; [split; reflexivity|]. split; [reflexivity|]. split; reflexivity. Qed.
 Print Assumptions divider_arithmetic_is_what_the_source_says.
